@@ -402,6 +402,11 @@ def gensErr (gset : Bool) (guard : List Nat) (fs : FS) : List Pat → Nat → Bo
 def checkErr (t : Task) (e : Env) (fs : FS) : Bool :=
   decide (t.method = .checksum) && !t.sources.isEmpty && gensErr e.gset t.gguard fs t.generates 0
 
+/-- the state a `--force` run starts its body from (F8F): what the sources checker leaves — unless its
+check ends in an error, which `--force` ignores and which (F8D) records nothing -/
+def forceStart (H : Hashes) (pr : Proj) (t : Task) (e : Env) (s : State) : State :=
+  if checkErr t e s.files then s else (isUpToDate H pr t false e.now s).1
+
 /-- the `status:` commands of this run are interrupted by the failure of a sibling (`Env.cancelled`):
 whatever the checkers say, the task is not reported up to date -/
 def interrupted (t : Task) (e : Env) : Bool := e.cancelled && !t.status.isEmpty
@@ -424,7 +429,11 @@ def invoke (cfg : Cfg) (H : Hashes) (pr : Proj) (i : Nat) (m : Mode) (e : Env) (
   | .force =>
     match pr.tasks[i]? with
     | none => (s, ⟨.failed, false, [], []⟩)
-    | some t => runBody cfg H pr i t false e s
+    -- (F8F) the sources checker runs under --force as well, for what it RECORDS only: its verdict and its
+    -- errors are ignored, the status commands are not evaluated; before the fix the body started from `s`
+    -- and a successful forced run recorded nothing (`C05_force_old_rule`)
+    -- (an ERROR of that check — `checkErr` — is ignored as well; since F8D nothing is recorded then)
+    | some t => runBody cfg H pr i t false e (forceStart H pr t e s)
   | .run =>
     match pr.tasks[i]? with
     | none => (s, ⟨.failed, false, [], []⟩)
